@@ -67,6 +67,12 @@ func MockSpecs(thorough bool) []*spec.Spec {
 	mk("examples_oneof_member", "kind=oneof,card=singular,examples=parsable",
 		spec.M("Resp", spec.F("a", "string").In("pick").Ex("a1", "a2"), spec.F("b", "int64").In("pick").Ex("1", "2")).WithOneof(&spec.Oneof{Name: "pick"}), nil, nil)
 	mk("examples_int32_float", "kind=int32,card=singular,examples=parsable", spec.M("Resp", spec.F("val", "int32").Ex("3", "-4"), spec.F("f", "float").Ex("0.5", "2")), nil, nil)
+	{
+		// a nested message with the short name of the (different) message it wraps
+		resp := spec.M("Resp", spec.Msg("first_item", "Resp.Item"), spec.F("label", "string")).WithNested(spec.M("Item", spec.Msg("item", "Item"), spec.F("quantity", "int32")))
+		mk("examples_same_short_name", "kind=message,card=same_short_name,examples=parsable", resp,
+			[]*spec.Message{spec.M("Item", spec.F("sku", "string").Ex("SKU-1", "SKU-2"), spec.F("weight", "int64").Ex("250", "300"))}, nil)
+	}
 	mk("examples_quote", "kind=string,card=singular,examples=quote", spec.M("Resp", spec.F("val", "string").Ex(`say "hi"`, `back\slash`)), nil, nil)
 	return out
 }
